@@ -25,14 +25,14 @@ from vf.core import hyp
 
 ID = 'C18'
 LEVEL = 'exploration'
-RULE = ('histories = sequences of ops over ids {A,B,(C)}: sub(id, duplex|simplex), unsub(id), pub, break(id, unread?); all '
+RULE = ('histories = sequences of ops over ids {A,B,(C)}: sub(id, duplex|simplex), unsub(id), pub, burst(k publishes back to back), break(id, unread?); all '
         'histories of length <= 5 (quick) / <= 6 (thorough) over 2 ids enumerated, histories up to 40 ops over 3 ids drawn by '
         'Hypothesis. Non-trivial: >= 2 live subscribers across a publish AND >= 1 unsubscribe or breakage; distinct by history.')
 EXPLANATION = 'exhaustive_subspaces lists the history lengths enumerated completely over the 2-subscriber alphabet'
 ASSUMPTIONS = ['histories are short enough that no pipe fills (a full pipe would block the dispatcher by design)',
                'in-process delivery of the channel object stands in for pickling it through a multiprocessing.Queue (done for real in the thorough live tier)']
 
-SHORT_OPS: List[Tuple[Any, ...]] = [('sub', 'A', True), ('sub', 'B', False), ('unsub', 'A'), ('unsub', 'B'), ('pub',), ('break', 'A', False),
+SHORT_OPS: List[Tuple[Any, ...]] = [('sub', 'A', True), ('sub', 'B', False), ('unsub', 'A'), ('unsub', 'B'), ('pub',), ('burst', 2), ('break', 'A', False),
                                     ('break', 'B', True)]
 
 
@@ -50,7 +50,18 @@ class HistoryQueue:
         self.consumed = 0
 
     def put(self, ev: Dict[str, Any]) -> None:
+        # like multiprocessing.Queue.put(): the object is only buffered here; it is serialised later (by the feeder thread,
+        # at any moment up to the get()), so whoever mutates it after put() changes what is delivered
         self.pending.append(ev)
+
+    def _take(self) -> Dict[str, Any]:
+        import copy
+        ev = self.pending.pop(0)
+        if isinstance(ev, dict) and ev.get('event_name') == 7:
+            # plain-data events are "pickled" as late as a real queue may do it: now.  (Subscribe requests carry the channel
+            # object and are handed over as they are.)
+            ev = copy.deepcopy(ev)
+        return ev
 
     def get(self, timeout: Optional[float] = None) -> Dict[str, Any]:
         while not self.pending:
@@ -60,7 +71,7 @@ class HistoryQueue:
             op = self.ops.pop(0)
             self.consumed += 1
             self._do(op)
-        return self.pending.pop(0)
+        return self._take()
 
     def _do(self, op: Tuple[Any, ...]) -> None:
         kind = op[0]
@@ -78,12 +89,14 @@ class HistoryQueue:
             if sid in self.current and self.channels[self.current[sid]]['state'] == 'live':
                 self.channels[self.current[sid]]['state'] = 'unsubscribed'
             self.eq.unsubscribe(sid)
-        elif kind == 'pub':
-            self.npub += 1
-            for ch in self.channels:
-                if ch['state'] == 'live':
-                    ch['expected'].append(self.npub)
-            self.eq.publish(request_id='r%d' % self.npub, event_name=7, event_payload={'n': self.npub}, publisher_id='vf')
+        elif kind in ('pub', 'burst'):
+            # 'burst': several publishes back to back, before the dispatcher gets to see the first of them
+            for _ in range(1 if kind == 'pub' else int(op[1])):
+                self.npub += 1
+                for ch in self.channels:
+                    if ch['state'] == 'live':
+                        ch['expected'].append(self.npub)
+                self.eq.publish(request_id='r%d' % self.npub, event_name=7, event_payload={'n': self.npub}, publisher_id='vf')
         elif kind == 'break':
             _, sid, unread = op
             if sid in self.current:
@@ -132,7 +145,7 @@ def evaluate(c: Dict[str, Any]) -> Tuple[List[Any], Dict[str, Any]]:
     r = run_history(ops)
     out: List[Any] = []
     kinds = set(o[0] for o in ops)
-    feat = {'has_break': 'break' in kinds, 'has_unsub': 'unsub' in kinds}
+    feat = {'has_break': 'break' in kinds, 'has_unsub': 'unsub' in kinds, 'has_burst': 'burst' in kinds}
     live_counts = []
     live = 0
     # non-triviality bookkeeping (model side)
@@ -143,7 +156,7 @@ def evaluate(c: Dict[str, Any]) -> Tuple[List[Any], Dict[str, Any]]:
             cur[o[1]] = True
         elif o[0] in ('unsub', 'break') and o[1] in cur:
             cur[o[1]] = False
-        elif o[0] == 'pub' and sum(cur.values()) >= 2:
+        elif o[0] in ('pub', 'burst') and sum(cur.values()) >= 2:
             two_live_across_pub = True
     info = {'nontrivial': two_live_across_pub and ('unsub' in kinds or 'break' in kinds), 'channels': len(r['channels'])}
     try:
@@ -245,7 +258,7 @@ def run_shard(spec: Dict[str, Any], seed: int, acc: Any) -> None:
                 acc.case(c, info['nontrivial'], labels=('len:%d' % n,))
                 for (cl, ft, ob, ex) in vs:
                     acc.fail(c, cl, ft, ob, ex)
-            acc.exhaustive_parts.append('all histories of length %d starting with %r over 7 ops / 2 subscribers' % (n, SHORT_OPS[spec['first']]))
+            acc.exhaustive_parts.append('all histories of length %d starting with %r over 8 ops / 2 subscribers' % (n, SHORT_OPS[spec['first']]))
         return
     if spec['kind'] == 'live':
         for i in range(spec['runs']):
@@ -256,7 +269,8 @@ def run_shard(spec: Dict[str, Any], seed: int, acc: Any) -> None:
         return
     ids = st.sampled_from(['A', 'B', 'C'])
     op = st.one_of(st.tuples(st.just('sub'), ids, st.booleans()).map(list), st.tuples(st.just('unsub'), st.sampled_from(['A', 'B', 'C', 'Z'])).map(list),
-                   st.just(['pub']), st.just(['pub']), st.tuples(st.just('break'), ids, st.booleans()).map(list))
+                   st.just(['pub']), st.just(['pub']), st.tuples(st.just('burst'), st.integers(2, 4)).map(list),
+                   st.tuples(st.just('break'), ids, st.booleans()).map(list))
 
     def chk(c: Dict[str, Any]) -> List[Any]:
         vs, info = evaluate(c)
